@@ -30,7 +30,15 @@ pub(super) fn execute_skip<'a, S: GraphSnapshot + 'a>(
         Err(err) => return PlanIterator::Dynamic(Box::new(std::iter::once(Err(err)))),
     };
     let input_iter = execute_plan(snapshot, input, params);
-    PlanIterator::Dynamic(Box::new(input_iter.skip(skip)))
+    // Skip rows only: an upstream error is not a row and must reach the caller.
+    let mut remaining = skip;
+    PlanIterator::Dynamic(Box::new(input_iter.filter(move |item| {
+        if item.is_ok() && remaining > 0 {
+            remaining -= 1;
+            return false;
+        }
+        true
+    })))
 }
 
 pub(super) fn execute_limit<'a, S: GraphSnapshot + 'a>(
@@ -55,18 +63,19 @@ pub(super) fn execute_distinct<'a, S: GraphSnapshot + 'a>(
     let input_iter = execute_plan(snapshot, input, params);
     let mut seen = std::collections::HashSet::new();
     PlanIterator::Dynamic(Box::new(input_iter.filter(move |result| {
-        if let Ok(row) = result {
-            let key = row
-                .columns()
-                .iter()
-                .map(|(_, v)| format!("{:?}", v))
-                .collect::<Vec<_>>()
-                .join(",");
-            if seen.insert(key) {
-                return true;
+        match result {
+            Ok(row) => {
+                let key = row
+                    .columns()
+                    .iter()
+                    .map(|(_, v)| format!("{:?}", v))
+                    .collect::<Vec<_>>()
+                    .join(",");
+                seen.insert(key)
             }
+            // Errors raised upstream (runtime errors, resource limits) must reach the caller.
+            Err(_) => true,
         }
-        false
     })))
 }
 
@@ -142,18 +151,19 @@ pub(super) fn execute_union<'a, S: GraphSnapshot + 'a>(
     } else {
         let mut seen = std::collections::HashSet::new();
         PlanIterator::Dynamic(Box::new(chained.filter(move |result| {
-            if let Ok(row) = result {
-                let key = row
-                    .columns()
-                    .iter()
-                    .map(|(_, v)| format!("{:?}", v))
-                    .collect::<Vec<_>>()
-                    .join(",");
-                if seen.insert(key) {
-                    return true;
+            match result {
+                Ok(row) => {
+                    let key = row
+                        .columns()
+                        .iter()
+                        .map(|(_, v)| format!("{:?}", v))
+                        .collect::<Vec<_>>()
+                        .join(",");
+                    seen.insert(key)
                 }
+                // Errors raised by either branch must reach the caller.
+                Err(_) => true,
             }
-            false
         })))
     }
 }
